@@ -394,7 +394,19 @@ func main() {
 		if mode == "iso" {
 			check(e.Encode(isoCase(id)))
 		} else {
-			check(e.Encode(timeCase(id)))
+			c := timeCase(id)
+			check(e.Encode(c))
+			// an execution that never came back keeps a processor busy for good: what follows would measure that, not
+			// the interpreter; the verdict (never-returned) is in the case just written
+			hung := false
+			for _, x := range c["execs"].(T) {
+				if x.(O)["hung"] == true {
+					hung = true
+				}
+			}
+			if hung {
+				break
+			}
 		}
 	}
 	w.Flush()
